@@ -22,7 +22,7 @@ type FileSpec struct {
 	// import spellings
 	CtxAlias string `json:"ctxalias,omitempty"` // alias for "context" ("" = plain)
 	CffAlias string `json:"cffalias,omitempty"` // alias for go.uber.org/cff
-	Layout   int    `json:"layout,omitempty"`   // bit 0: CRLF line endings, bit 1: no newline at the end of the file, bit 2: //go:generate and a doc comment between the constraint and the package clause
+	Layout   int    `json:"layout,omitempty"`   // bit 0: CRLF line endings, bit 1: no newline at the end of the file, bit 2: //go:generate and a doc comment between the constraint and the package clause, bit 3: no blank line between a //go:build line and the package clause
 	OddImp   int    `json:"oddimp,omitempty"`   // 1: imports vcase/odd/v2 (package odd), 2: math/rand/v2 (package rand), both without an explicit name
 	TimeImp  string `json:"timeimp,omitempty"`  // "", "plain" (imports time), "alias" (tm "time"), "collide" (another package imported as time)
 }
@@ -233,9 +233,11 @@ func (pr *progRender) fnExpr(sp string, unit int, sigStr string, body []string, 
 		// converted back in the body; otherwise the type parameter is a
 		// phantom.
 		tsig, inst, conv := plainSig, "struct{}", ""
-		if m := regexp.MustCompile(`a0 ([^,)]+)`).FindStringSubmatchIndex(plainSig); m != nil {
+		// (only for types that are a single token: unnamed struct / func / array
+		// types contain commas, parentheses or line breaks)
+		if m := regexp.MustCompile(`a0 ([\w.*]+(?:\[[\w.*]*\])?[\w.*]*)[,)]`).FindStringSubmatchIndex(plainSig); m != nil && !strings.Contains(plainSig[m[2]:m[3]], "func") && !strings.Contains(plainSig[m[2]:m[3]], "struct") {
 			inst = plainSig[m[2]:m[3]]
-			tsig = plainSig[:m[0]] + "a0x X" + plainSig[m[1]:]
+			tsig = plainSig[:m[0]] + "a0x X" + plainSig[m[3]:]
 			conv = "\ta0, _ := any(a0x).(" + inst + ") // comma-ok: a nil interface value converts to the zero value\n"
 		}
 		d := "func gen_" + name + "[X any]" + strings.TrimPrefix(tsig, "func") + " {\n\tenv := rt.FromCtx(ctx)\n" + conv
@@ -786,7 +788,9 @@ func RenderFileAs(f *FileSpec, pkgAuto bool, regSuffix string) (src, side string
 	side = strings.Join(decls, "\n")
 	var x w
 	x.sb.WriteString(f.Header)
-	x.f("")
+	if f.Layout&8 == 0 || f.Layout&4 != 0 || strings.Contains(f.Header, "+build") {
+		x.f("")
+	} // else: the //go:build line sits directly above the package clause (legal; gofmt would add a blank line)
 	if f.Layout&4 != 0 {
 		// tool directives and a doc comment between the constraint and the package clause
 		x.f("//go:generate echo regenerate %s", f.Name)
@@ -992,6 +996,17 @@ func SupportSource() string {
 		x.f("func (v impl%[1]d) Tag%[1]d() uint64 { return v.t }", i)
 		x.f("func mk_I%[1]d(t uint64) I%[1]d {\n\tif t == 0 {\n\t\treturn nil\n\t}\n\treturn impl%[1]d{t}\n}", i)
 		x.f("func tag_I%[1]d(v I%[1]d) uint64 {\n\tif v == nil {\n\t\treturn 0\n\t}\n\treturn v.Tag%[1]d()\n}", i)
+	}
+	for i := 1; i <= 3; i++ {
+		a, xx, ff := rt.TypeRef{K: "A", I: i}.Go(), rt.TypeRef{K: "X", I: i}.Go(), rt.TypeRef{K: "F", I: i}.Go()
+		x.f("func mk_A%d(t uint64) %s {\n\tvar v %s\n\tv[0].Tag = t\n\treturn v\n}", i, a, a)
+		x.f("func tag_A%d(v %s) uint64 { return v[0].Tag }", i, a)
+		x.f("func mk_X%d(t uint64) %s {\n\tvar v %s\n\tv.Tag = t\n\treturn v\n}", i, xx, xx)
+		x.f("func tag_X%d(v %s) uint64 { return v.Tag }", i, xx)
+		call := []string{"v()", "v(0)", "v(\"\", \"\")"}[i-1]
+		lit := []string{"func() uint64 { return t }", "func(int) uint64 { return t }", "func(a, b string) uint64 { return t }"}[i-1]
+		x.f("func mk_F%d(t uint64) %s {\n\tif t == 0 {\n\t\treturn nil\n\t}\n\treturn %s\n}", i, ff, lit)
+		x.f("func tag_F%d(v %s) uint64 {\n\tif v == nil {\n\t\treturn 0\n\t}\n\treturn %s\n}", i, ff, call)
 	}
 	x.f("func mk_int(t uint64) int { return int(t) }")
 	x.f("func tag_int(v int) uint64 { return uint64(v) }")
